@@ -7,6 +7,9 @@ KnownC09 == {"StringMetatableShared", "RetainedLibraryTablesShared"}
 \* classes of seeded changes (round 8): what one call was given stays in force for later calls
 DevTimeLimitKept == {"TimeLimitKept"}
 DevCallOptionsKept == {"CallOptionsKept"}
+\* class of a seeded change (round 9): constructors of the retained libraries hand out memoised objects
+DevObjMemo == {"HandedOutObjectsMemoised"}
+NamedCells == OptCells \cup {"lobjects"}
 AllKinds == Kinds
 BaseKinds == Kinds \ OptKinds       \* the kinds of the rounds before round 8
 \* Sound reduction for model checking over ALL kinds: what a history can still do depends on `dirty` only, and
@@ -38,12 +41,12 @@ Next == Len(hist) < MaxLen /\ \E k \in KindSet : Allowed(hist, k) /\ Process(k)
 Spec == CInit /\ [][Next]_cvars
 \* what the model in which the options of a call stay in force (classes of seeded changes) says interferes: used by
 \* the harness only to NAME an observed difference (which option of which earlier call)
-OK == INSTANCE Context WITH Dev <- Dev \cup DevTimeLimitKept \cup DevCallOptionsKept
+OK == INSTANCE Context WITH Dev <- Dev \cup DevTimeLimitKept \cup DevCallOptionsKept \cup DevObjMemo
 RECURSIVE ReplayOK(_, _, _, _)
 ReplayOK(h, i, d, acc) ==
   IF i > Len(h) THEN acc
   ELSE LET pre == d \ OK!Resets(h[i])
-       IN ReplayOK(h, i + 1, pre \cup OK!Writes(h[i]), Append(acc, (OK!Reads(h[i]) \cap pre \cap OptCells)))
+       IN ReplayOK(h, i + 1, pre \cup OK!Writes(h[i]), Append(acc, (OK!Reads(h[i]) \cap pre \cap NamedCells)))
 Emit == PrintT(<<"CASE", ToJson([hist |-> hist, interferes |-> [i \in 1..Len(clean) |-> clean[i]],
                                  optkept |-> ReplayOK(hist, 1, {}, <<>>)])>>)
 GenInv == Emit
